@@ -23,8 +23,9 @@ gensalt_sha_rn (char tag, size_t maxsalt, unsigned long defcount,
                 uint8_t *output, size_t output_size)
 {
   /* We will use more rbytes if available, but at least this much is
-     required.  */
-  if (nrbytes < 3)
+     required: the loop below only emits a group of four salt
+     characters while more than three bytes remain.  */
+  if (nrbytes < 4)
     {
       errno = EINVAL;
       return;
